@@ -12,7 +12,10 @@ FILES = ["grpc/kuksa_val_v1/val.rs", "grpc/kuksa_val_v1/conversions.rs", "grpc/k
          "broker.rs", "glob.rs", "permissions.rs", "types.rs", "vss.rs", "authorization/mod.rs",
          "authorization/jwt/decoder.rs", "authorization/jwt/scope.rs"]
 PAT = re.compile(r"\.unwrap\(\)|\.expect\(|\btodo!|\bunimplemented!|\bpanic!|\bunreachable!|\bassert!|\bassert_eq!|"
-                 r"\bdebug_assert!|\[[a-z_*][a-z_0-9*. ]*\]|\[\d+\]|\.remove\(0\)|\bas usize\]")
+                 r"\bdebug_assert!|\[[a-z_*][a-z_0-9*. ]*\]|\[\d+\]|\.remove\(0\)|\bas usize\]|"
+                 r"\.truncate\(|\.split_at\(|\.split_off\(|\.drain\(|\.swap_remove\(|\[\.\.|\.\.\]|_unchecked\(|"
+                 r"\bDuration::new\(|\bUNIX_EPOCH \+|\.copy_from_slice\(")
+STRLIT = re.compile(r'"(?:\\.|[^"\\])*"')
 TEST_START = re.compile(r"^\s*#\[(cfg\(test\)|test|tokio::test)")
 INDEX = re.compile(r"\[[a-z_*][a-z_0-9*. ]*\]|\[\d+\]")
 
@@ -31,7 +34,8 @@ def scan():
             m = re.search(r"\bfn\s+(\w+)", line)
             if m:
                 fn = m.group(1)
-            code = line.split("//")[0]
+            raw = line.split("//")[0]
+            code = STRLIT.sub('""', raw)
             if "#[" in code and "]" in code and not PAT.search(code.replace("#[", "")):
                 continue
             hit = PAT.search(code)
@@ -40,7 +44,7 @@ def scan():
             if INDEX.fullmatch(hit.group(0)) and re.search(r"#\[|\bvec!\[|: \[|&\[|\[u8\]|-> \[", code) \
                     and not re.search(r"\w\[[a-z_*0-9][^\]]*\]", code):
                 continue
-            sites.append((f, fn, " ".join(code.split())))
+            sites.append((f, fn, " ".join(raw.split())))
     return sites
 
 
